@@ -61,7 +61,7 @@ def g_tail(st, index):
 TAIL_EVERY = 8
 
 
-def gen_case(st, prop, index=None):
+def gen_case(st, prop, index=None, tier='quick'):
     """Draw one case.  ``st``: rng.Streams of the run; ``prop``: 'C06'|'C07'."""
     if index is not None and index % TAIL_EVERY == 3:
         return g_tail(st, index)
@@ -72,6 +72,8 @@ def gen_case(st, prop, index=None):
     else:
         mode = weighted(r, [('recover', 45), ('doc', 28), ('alphabet', 13),
                             ('deep', 5), ('corpus', 4), ('repeat', 5)])
+    if mode == 'recover':
+        return g_recover(st, nalts=16 if tier == 'thorough' else 3)
     return GENERATORS[mode](st)
 
 
@@ -194,7 +196,7 @@ def g_sweep(st):
             'form': _form(st), 'skip_envs': [], 'recover': False, 'depth': 0}
 
 
-def g_recover(st):
+def g_recover(st, nalts=3):
     """C07(b): restricted sub-grammar, exactly one lost real closer or one
     truncation while a construct is open."""
     d = docgen.generate(st['doc'], restricted=True,
@@ -202,22 +204,23 @@ def g_recover(st):
     wire = [t.text for t in d.toks]
     rf = st['faults']
     closers = d.closers()
-    faults = []
-    what = 'none'
-    if closers and rf.random() < 0.8:
-        i, kind = closers[rf.randrange(len(closers))]
-        faults = [{'kind': 'LOSS', 'at': i}]
-        what = 'loss' + kind
-    else:
-        # truncation point where at least one construct is open
-        opened = [i for i, t in enumerate(d.toks) if t.depth > 0 and i > 0]
-        if opened:
-            i = opened[rf.randrange(len(opened))]
-            faults = [{'kind': 'EOF', 'at': i}]
-            what = 'eof-open'
+    opened = [i for i, t in enumerate(d.toks) if t.depth > 0 and i > 0]
+    # every real closer of the document and every truncation point with an open
+    # construct is a candidate fault; a run tries several of them on the same
+    # document (all of them, up to a cap, in the thorough tier)
+    c1 = [({'kind': 'LOSS', 'at': i}, 'loss' + kind) for i, kind in closers]
+    c2 = [({'kind': 'EOF', 'at': i}, 'eof-open') for i in opened]
+    rf.shuffle(c1)
+    rf.shuffle(c2)
+    k1 = (2 * nalts + 2) // 3          # two thirds lost closers, one third truncations
+    cands = c1[:k1] + c2[:max(1, nalts - min(k1, len(c1)))]
+    rf.shuffle(cands)
+    cands = cands[:nalts]
+    faults, what = ([cands[0][0]], cands[0][1]) if cands else ([], 'none')
+    alts = [{'faults': [f], 'what': w} for f, w in cands[1:]]
     return {'mode': 'recover', 'profile': d.profile, 'plan': 'tokens', 'wire': wire,
             'paths': d.paths, 'faults': faults, 'form': _form(st), 'skip_envs': [], 'recover': bool(faults),
-            'what': what, 'depth': d.max_depth()}
+            'what': what, 'alts': alts, 'depth': d.max_depth()}
 
 
 GENERATORS = {'doc': g_doc, 'deep': g_deep, 'repeat': g_repeat, 'alphabet': g_alphabet,
@@ -444,6 +447,35 @@ def _diagnose(D, T, closers, droppable):
 # execution
 # ---------------------------------------------------------------------------
 def execute(case, props=('C06', 'C07')):
+    """Run one case; a recover case may carry alternative single faults on the
+    same document, which are executed in turn until one violates."""
+    res = execute_one(case, props)
+    alts = case.get('alts') or []
+    if not alts or any(res['verdicts'].get(p) for p in props):
+        return res
+    logs = list(res['log'])
+    for alt in alts:
+        sub = dict(case, faults=alt['faults'], what=alt['what'], alts=[])
+        r2 = execute_one(sub, props)
+        logs.extend(r2['log'])
+        for k, v in r2['counters'].items():
+            if k.startswith(('mode.', 'form.')):
+                continue
+            res['counters'][k] = res['counters'].get(k, 0) + v
+        res['ticks'] += r2['ticks']
+        if any(r2['verdicts'].get(p) for p in props):
+            r2['counters'] = res['counters']
+            r2['ticks'] = res['ticks']
+            r2['log'] = logs
+            r2['digest'] = digest(logs)
+            r2['case_override'] = sub
+            return r2
+    res['log'] = logs
+    res['digest'] = digest(logs)
+    return res
+
+
+def execute_one(case, props=('C06', 'C07')):
     """Run one case.  Returns dict with verdicts per property, an event log,
     counters and the distinctness key."""
     delivered, applied = simreader.apply_faults(case['wire'], case.get('faults', []))
